@@ -308,6 +308,25 @@ pub fn run() -> Report {
             for (r, variant) in &twins {
                 world.add_key_twin(r, *variant);
             }
+            // every third case: an older copy of the directory nested into itself - `blocks/index` describes the chain as it was
+            // before the tip arrived, with the competitors of this case still counted as connected; the blk files of the copy
+            // are byte-identical prefixes of the real ones (append-only), so every position it names is valid out here too
+            if _i % 3 == 1 {
+                let tip_hash = chain.blocks[TIP as usize].hash();
+                let mut old = World::new(btc);
+                for (r, data) in &recs {
+                    if *data && r.hash != tip_hash {
+                        let mut o = r.clone();
+                        o.status = ACTIVE;
+                        old.put_rec(&o);
+                    }
+                }
+                for (n, f) in &world.files {
+                    old.files.insert(*n, f.clone());
+                }
+                world.extra.push(refmodel::world::Extra::Nested("blocks".into(), Box::new(old)));
+                acc.count("older-copy-of-the-directory-nested-as-blocks/", 1);
+            }
             if c.pruned_below > 0 {
                 for (r, _) in recs.iter().take(chain.blocks.len()) {
                     if r.height < c.pruned_below {
